@@ -131,6 +131,23 @@ def make_files(rng, ctx):
         offs |= {rng.randrange(n + 1) for _ in range(ctx.pick(24, 400))}
         f['offsets'] = sorted(offs)
         files.append(f)
+    # alignment rung: a version-2 dump whose record area begins on a power-of-two boundary of the stream (0x120 + 32 * 1015
+    # thread-map entries = 32768: a multiple of every block size up to 32 KiB; 119 entries give 4096, 247 give 8192) - a reader that takes
+    # whole blocks from an aligned position meets the cut inside its block.  Cuts: every byte of the first three
+    # records and of the last one, and a few inside the map.
+    for n_threads in ctx.pick((119, 1015), (119, 247, 1015, 2039)):
+        entries = [(1000 + i, 100 + i % 3, b'proc%d' % (i % 3), b'') for i in range(n_threads)]
+        recs = gen.events_to_records(gen.gen_scenario_events(rng, n_scenarios=4))[:12]
+        data = wire.v2_file(entries, 0, recs)
+        area = len(data) - 64 * len(recs)
+        f = {'kind': 'v2', 'entries': entries, 'pad': 0, 'records': recs, 'data': data,
+             'label': f'v2 record area at stream offset {area} ({n_threads} thread-map entries)',
+             'offsets': sorted(set(range(area - 2, area + 193)) | set(range(len(data) - 66, len(data) + 1)) |
+                               {0, 100, 0x120, 0x120 + 32 * 7 + 5, area // 2}),
+             'pipelines': ('kevents', 'formatted_kevents', 'formatted_traces')}
+        files.append(f)
+        if area % 4096:
+            raise core.Inconclusive(f'alignment rung: record area at {area}')
     # a version-3 dump whose events chunks declare a length that is not a whole number of records (fill bytes after the
     # last record); whatever the tool makes of the complete file, every cut of it must stop and report a prefix of that
     evs = gen.gen_scenario_events(rng, n_scenarios=3)
@@ -279,6 +296,8 @@ def run(ctx):
             for k in offsets:
                 for name, (make, key) in pl.items():
                     if name == 'formatted_traces_color' and k % 5:
+                        continue
+                    if 'pipelines' in f and name not in f['pipelines']:
                         continue
                     clocked = (name == 'kevents' or k % 7 == 0) and len(f.get('spinning_offsets', ())) < 3
                     check_cut(res, f, fi, k, name, make, key, fulls[name], clocked)
